@@ -21,7 +21,7 @@ func init() {
 		ID:              "C14",
 		Level:           "exploration",
 		RaceIsViolation: true,
-		Cases:           func(tier string) int { return vlib.TierN(tier, 640, 16000) },
+		Cases:           func(tier string) int { return vlib.TierN(tier, 640, 40000) },
 		Rule: "case i runs class i%4: (0) middleware-concurrent, (1) publisher-decorator-concurrent: a multiset of 4..96 messages over 1..5 keys (payload sizes around the 64-byte read limit: equal prefixes with different tails, keys from SHA-256/Adler-32 with limits 1..MaxInt64 or a metadata field), " +
 			"presented by 1..32 goroutines released by a barrier with yield injection at the repository's hook point, retention window 1 h; exactly one message per key may reach the handler / inner publisher, all others must come back as (nil,nil) resp. acked and filtered; " +
 			"(2) window: windows 5..50 ms, IsDuplicate polled with conservative monotonic stamps: a key accepted at [a0,a1] must be reported duplicate by any call ending before a0+window, and must be accepted again before the harness's own ticker of period window/2 fired 12 times past a1+window (else inconclusive if the control ticker itself was late); " +
